@@ -38,6 +38,7 @@ struct Case {
 enum Verdict {
     Returned(Outcome),
     Blocked(String),
+    Spinning(String),
     Inconclusive(String),
 }
 
@@ -85,6 +86,15 @@ fn run_call(cn: &mut util::Conn, op: &FeOp) -> (Verdict, Lent) {
                     break;
                 }
             }
+        }
+        // a call that keeps burning CPU without returning is spinning (a frontend call needs microseconds)
+        if ct > 0 && sys::thread_cpu_ticks(ct) >= sys::SPIN_TICKS {
+            unsafe { libc::shutdown(fe_fd, libc::SHUT_RDWR) };
+            if rx.recv_timeout(Duration::from_millis(200)).is_ok() {
+                break;
+            }
+            // cannot be joined: the thread is left behind; the caller reports and ends the process
+            return (Verdict::Spinning(format!("caller tid {ct} consumed {} CPU ticks inside the call and did not return even after the socket was shut down", sys::thread_cpu_ticks(ct))), Lent::default());
         }
         if Instant::now() > deadline {
             verdict = Some(Verdict::Inconclusive("watchdog expired without a blocked-reader certificate".into()));
@@ -167,6 +177,10 @@ fn judge(cfg: &Cfg, c: &Case, idx: u64) {
         Verdict::Blocked(why) => {
             report::violation(&format!("C03:{}:{}:call-never-returns", c.op.name(), c.shape), base(jo! {"certificate" => why}), cfg.replay(&case));
         }
+        Verdict::Spinning(why) => {
+            report::violation(&format!("C03:{}:{}:call-spins", c.op.name(), c.shape), base(jo! {"certificate" => why}), cfg.replay(&case));
+            std::process::exit(report::finish());
+        }
         Verdict::Returned(out) => {
             let ret_ident = cn.be.lock().unwrap().returned.last().cloned();
             match c.expect_ok {
@@ -216,6 +230,10 @@ fn judge(cfg: &Cfg, c: &Case, idx: u64) {
                     }
                     Verdict::Blocked(why) => {
                         report::violation(&format!("C03:followup-after:{}:{}:call-never-returns", c.op.name(), c.shape), base(jo! {"followup" => "get_max_mem_slots", "certificate" => why}), cfg.replay(&case));
+                    }
+                    Verdict::Spinning(why) => {
+                        report::violation(&format!("C03:followup-after:{}:{}:call-spins", c.op.name(), c.shape), base(jo! {"followup" => "get_max_mem_slots", "certificate" => why}), cfg.replay(&case));
+                        std::process::exit(report::finish());
                     }
                     Verdict::Inconclusive(r) => report::inconclusive(&format!("followup after {} {}: {r}", c.op.name(), c.shape)),
                 }
